@@ -14,7 +14,7 @@
    evaluation per dataset) with the datasets in [flags] marked _recursing. *)
 From Coq Require Import ZArith List Bool.
 Import ListNotations.
-From GV Require Import C11.Model C11.Lemmas.
+From GV Require Import C11.Model C11.Lemmas gen.Gen_joins C11.GenLink.
 
 (* ---- the four shapes: a row is selected iff its key equals by value a key of a row selected on the other side *)
 Theorem join_1_1 : forall (left right : table) (mr : list bool) (a b : nat),
@@ -141,3 +141,119 @@ Theorem join_chain : forall S path prev F fuel,
   get_mask fuel S F (hd 0%nat (map fst path)) None = chain_out S path.
 Proof. exact Lemmas.join_chain. Qed.
 Print Assumptions join_chain.
+
+
+(* ================================================================== round 4 ==================================================== *)
+(* ---- JoinLink given to the LinkManager: dataset identities are the link's data1 / data2, not the parents of its ComponentIDs.
+   [cid] = (which ComponentID object, its .parent); [layout] = per dataset the ids its columns are stored under; [cpos L d c] = the
+   column of dataset d stored under id c. *)
+Theorem link_both_directions : forall (ts : list table) (L : layout) (l : jlink) js,
+  data1 l <> data2 l -> (data1 l < length ts)%nat -> (data2 l < length ts)%nat ->
+  add_link L (map (fun _ => []) ts) l = (js, 0%Z) ->
+  let ca := [cpos L (data1 l) (hd dcid (cids1 l))] in
+  let cb := [cpos L (data2 l) (hd dcid (cids2 l))] in
+  (forall ow view mb, nth (data1 l) ow None = None -> nth (data2 l) ow None = Some mb ->
+     get_mask_top (Sys ts js ow) (data1 l) view =
+     out_of (join_mask (apply_view [] view (nth (data1 l) ts [])) (select mb (nth (data2 l) ts [])) ca cb)) /\
+  (forall ow view ma, nth (data2 l) ow None = None -> nth (data1 l) ow None = Some ma ->
+     get_mask_top (Sys ts js ow) (data2 l) view =
+     out_of (join_mask (apply_view [] view (nth (data2 l) ts [])) (select ma (nth (data1 l) ts [])) cb ca)).
+Proof. exact GenLink.link_both_directions. Qed.
+Print Assumptions link_both_directions.
+
+(* a LinkManager that takes the datasets from cids[0].parent is provably a different function: with a table (dataset 1) that stores
+   its key under the ComponentID of the catalogue it was extracted from (dataset 0) and is linked with observations (dataset 2), the
+   table receives the selection by the link's datasets and nothing by the parents, and the catalogue the other way round *)
+Theorem link_by_parent_refuted :
+  exists (ts : list table) (L : layout) (l : jlink) (ow : list (option (list bool))),
+    layout_okb ts L = true /\ link_okb ts L l = true /\ data1 l <> data2 l /\
+    nth (data2 l) ow None = None /\ nth (cid_parent (hd dcid (cids2 l))) ow None = None /\
+    get_mask_top (Sys ts (fst (add_link L (map (fun _ => []) ts) l)) ow) (data2 l) None = Mask [false; true] /\
+    get_mask_top (Sys ts (fst (add_link L (map (fun _ => []) ts) l)) ow) (cid_parent (hd dcid (cids2 l))) None = Incompatible /\
+    get_mask_top (Sys ts (fst (add_link_by_parent L (map (fun _ => []) ts) l)) ow) (data2 l) None = Incompatible /\
+    get_mask_top (Sys ts (fst (add_link_by_parent L (map (fun _ => []) ts) l)) ow) (cid_parent (hd dcid (cids2 l))) None
+      = Mask [false; false; true].
+Proof. exact GenLink.link_by_parent_refuted. Qed.
+Print Assumptions link_by_parent_refuted.
+
+(* remove_link of the link just added restores the dicts, and then nothing propagates: every dataset that cannot evaluate the
+   selection itself answers Incompatible *)
+Theorem unlink_restores : forall (ts : list table) (L : layout) (l : jlink) js,
+  data1 l <> data2 l -> (data1 l < length ts)%nat -> (data2 l < length ts)%nat ->
+  add_link L (map (fun _ => []) ts) l = (js, 0%Z) ->
+  remove_link L js l = (map (fun _ => []) ts, 0%Z) /\
+  forall ow view d, nth d ow None = None -> get_mask_top (Sys ts (map (fun _ => []) ts) ow) d view = Incompatible.
+Proof. exact GenLink.unlink_restores. Qed.
+Print Assumptions unlink_restores.
+
+(* ---- the code translated from the source on every run (coq/gen/Gen_joins.v) is the model *)
+(* the four-way dispatch of get_mask_with_key_joins, numpy kernels instantiated by the model's column operations *)
+Theorem gen_dispatch_eq : forall S view d o mr c1 c2,
+  gen_dispatch S view d o mr c1 c2 =
+  out_of (join_mask (apply_view [] view (rows_of S d)) (select mr (rows_of S o)) c1 c2).
+Proof. exact GenLink.gen_dispatch_eq. Qed.
+Print Assumptions gen_dispatch_eq.
+
+(* the translated loop (skip flagged, read / set / restore _recursing, try / except IncompatibleAttribute: continue / finally), closed
+   into Data.get_mask with the flags handed on as a state: same answer as the model, and every flag is left as it was found *)
+Theorem gen_get_mask_eq : forall f S F d view,
+  fst (gen_get_mask f S F d view) = get_mask f S F d view /\ feq (snd (gen_get_mask f S F d view)) F.
+Proof. exact GenLink.gen_get_mask_eq. Qed.
+Print Assumptions gen_get_mask_eq.
+
+Theorem gen_join_on_key_eq : forall js a b ca cb, join_on_key_reg js a b ca cb = join_on_key js a b ca cb.
+Proof. exact GenLink.gen_join_on_key_eq. Qed.
+Print Assumptions gen_join_on_key_eq.
+
+(* LinkManager.add_link / remove_link as translated use link.data1, link.data2, link.cids1[0], link.cids2[0] *)
+Theorem gen_add_link_eq : forall L js l, gen_add_link L js l = add_link L js l.
+Proof. exact GenLink.gen_add_link_eq. Qed.
+Print Assumptions gen_add_link_eq.
+
+Theorem gen_remove_link_eq : forall L js l, gen_remove_link L js l = remove_link L js l.
+Proof. exact GenLink.gen_remove_link_eq. Qed.
+Print Assumptions gen_remove_link_eq.
+
+(* ---- the four laws and termination, for the translated code *)
+Theorem gen_join_1_1 : forall S view d o mr a b,
+  exists m, gen_dispatch S view d o mr [a] [b] = Mask m /\ length m = length (apply_view [] view (rows_of S d)) /\
+    forall i, selected m i <->
+      exists r j r', nth_error (apply_view [] view (rows_of S d)) i = Some r /\ selected mr j /\ nth_error (rows_of S o) j = Some r' /\
+                     veq (key r a) (key r' b) = true.
+Proof. exact GenLink.gen_join_1_1. Qed.
+Print Assumptions gen_join_1_1.
+
+Theorem gen_join_n_n : forall S view d o mr c1 c2,
+  length c1 = length c2 -> (1 < length c1)%nat -> nn_domain (apply_view [] view (rows_of S d)) (rows_of S o) c1 c2 ->
+  exists m, gen_dispatch S view d o mr c1 c2 = Mask m /\ length m = length (apply_view [] view (rows_of S d)) /\
+    forall i, selected m i <->
+      exists r j r', nth_error (apply_view [] view (rows_of S d)) i = Some r /\ selected mr j /\ nth_error (rows_of S o) j = Some r' /\
+                     Forall2 (fun x y => veq (key r x) (key r' y) = true) c1 c2.
+Proof. exact GenLink.gen_join_n_n. Qed.
+Print Assumptions gen_join_n_n.
+
+Theorem gen_join_1_n : forall S view d o mr a c2, length c2 <> 1%nat ->
+  exists m, gen_dispatch S view d o mr [a] c2 = Mask m /\ length m = length (apply_view [] view (rows_of S d)) /\
+    forall i, selected m i <->
+      exists r j r' y, nth_error (apply_view [] view (rows_of S d)) i = Some r /\ selected mr j /\ nth_error (rows_of S o) j = Some r' /\
+                       In y c2 /\ veq (key r a) (key r' y) = true.
+Proof. exact GenLink.gen_join_1_n. Qed.
+Print Assumptions gen_join_1_n.
+
+Theorem gen_join_n_1 : forall S view d o mr c1 b, length c1 <> 1%nat ->
+  exists m, gen_dispatch S view d o mr c1 [b] = Mask m /\ length m = length (apply_view [] view (rows_of S d)) /\
+    forall i, selected m i <->
+      exists r j r' x, nth_error (apply_view [] view (rows_of S d)) i = Some r /\ selected mr j /\ nth_error (rows_of S o) j = Some r' /\
+                       In x c1 /\ veq (key r x) (key r' b) = true.
+Proof. exact GenLink.gen_join_n_1. Qed.
+Print Assumptions gen_join_n_1.
+
+Theorem gen_join_terminates : forall S, (length (joins S) <= length (tables S))%nat -> forall d view,
+  fst (gen_get_mask_top S d view) <> OutOfFuel /\
+  (forall x, memb x (snd (gen_get_mask_top S d view)) = false) /\
+  (forall fuel, (fuel_for S <= fuel)%nat -> fst (gen_get_mask fuel S [] d view) = fst (gen_get_mask_top S d view)) /\
+  ((forall e, reach S d e -> own_of S e = None) -> fst (gen_get_mask_top S d view) = Incompatible) /\
+  (no_self_join S -> forall fuel, (length (tables S) + 1 <= fuel)%nat ->
+     fst (gen_get_mask fuel S [] d view) = fst (gen_get_mask_top S d view)).
+Proof. exact GenLink.gen_join_terminates. Qed.
+Print Assumptions gen_join_terminates.
